@@ -78,7 +78,7 @@ def run(tier: str, seed: int) -> int:
     chk = Check("C02", tier, seed, "model_checking")
     chk.model_check("MC_Text")
     chk.model_check("MC_CondLang", "MC_CondLang.cfg" if tier == "quick" else "MC_CondLang_thorough.cfg")
-    cases = chk.generate("Gen_C02", shards=[1, 2, 3, 4, 5, 6, 7, 8, 9, 10, 11])
+    cases = chk.generate("Gen_C02", shards=[1, 2, 3, 4, 5, 6, 7, 8, 9, 10, 11, 12])
     # plus the conditions the repository's own test suite parses (text + detection names as recorded there)
     from ..harvest import harvest
 
